@@ -131,6 +131,7 @@ struct ApplyOptionChunk {
 
 #[binrw]
 #[derive(PartialEq, Debug)]
+#[brw(big)]
 struct DirectoryChunk {
     #[br(temp)]
     #[bw(calc = get_string_len(name) as u32)]
